@@ -35,6 +35,7 @@ struct Op {
 struct Program {
   std::vector<Op> ops;
   std::string dir;  // private directory
+  std::string rel;  // the same directory relative to the working directory of the process
 };
 
 static uint64_t dump_hash(econf_file *kf, const std::string &scrub_dir) {
@@ -108,7 +109,8 @@ static void exec_program(const Program &P, std::vector<uint64_t> &dig) {
       case O_READFILE: {
         if (kf) econf_freeFile(kf);
         kf = nullptr;
-        std::string f = P.dir + "/file" + std::to_string(op.a) + ".conf";
+        // half of the reads name the file relative to the (common) working directory
+        std::string f = (op.b % 2 ? P.rel : P.dir) + "/file" + std::to_string(op.a) + ".conf";
         e = econf_readFile(&kf, f.c_str(), op.s1.c_str(), op.s2.c_str());
         if (e != ECONF_SUCCESS) kf = nullptr;
         break;
@@ -116,7 +118,8 @@ static void exec_program(const Program &P, std::vector<uint64_t> &dig) {
       case O_READCONFIG: {
         if (kf) econf_freeFile(kf);
         kf = nullptr;
-        std::string opt = "PARSING_DIRS=" + P.dir + "/l1:" + P.dir + "/l2" + (op.a ? ";JOIN_SAME_ENTRIES=1" : "");
+        const std::string &base = op.slot2 % 2 ? P.rel : P.dir;
+        std::string opt = "PARSING_DIRS=" + base + "/l1:" + base + "/l2" + (op.a ? ";JOIN_SAME_ENTRIES=1" : "");
         e = econf_newKeyFile_with_options(&kf, opt.c_str());
         if (e == ECONF_SUCCESS) e = econf_readConfig(&kf, nullptr, nullptr, "app", op.b ? "conf" : ".conf", "=", "#");
         if (e != ECONF_SUCCESS && kf) {
@@ -187,6 +190,7 @@ static void exec_program(const Program &P, std::vector<uint64_t> &dig) {
 static Program gen_program(Src &s, const std::string &dir, bool &reads, bool &writes) {
   Program P;
   P.dir = dir;
+  P.rel = dir.substr(dir.find_last_of('/') + 1);
   mkdir_p(dir + "/l1/app.conf.d");
   mkdir_p(dir + "/l2/app.conf.d");
   // private files: three single files (valid / with an injected error), a small two-layer tree
@@ -302,7 +306,13 @@ int main(int argc, char **argv) {
   h.shrink_budget = 250;
   h.base = 64;
   h.per_size = 40;
-  h.setup = [] { g_scr.init(); };
-  h.teardown = [] { g_scr.cleanup(); };
+  h.setup = [] {
+    g_scr.init();
+    if (chdir(g_scr.dir.c_str()) != 0) perror("chdir");  // thread directories are t0, t1, ... below it
+  };
+  h.teardown = [] {
+    if (chdir("/") != 0) perror("chdir");
+    g_scr.cleanup();
+  };
   return engine_main(argc, argv, h);
 }
